@@ -627,9 +627,16 @@ func VH_C13_listen_failure() {
 	verifAssert("C13.listen-failure.blocker", err == nil)
 	VerifOccupyPacket("127.0.0.1:9000")
 	done := make(chan int, 4)
+	badStream := "127.0.0.1:9302" // busy
+	if verifFlag("unresolvable") {
+		badStream = "127.0.0.1:99999" // passes the configuration's validation, cannot be resolved
+	}
 	go func() {
-		_, err := lm.ListenStream("127.0.0.1:9302")
+		_, err := lm.ListenStream(badStream)
 		verifAssert("C13.listen-failure.stream-error-returned", err != nil)
+		// the next reload tries the same address again
+		_, err = lm.ListenStream(badStream)
+		verifAssert("C13.listen-failure.stream-error-returned-again", err != nil)
 		done <- 1
 	}()
 	go func() {
@@ -1290,4 +1297,78 @@ func verifSettle(cond func() bool) {
 	for i := 0; i < 20000 && !cond(); i++ {
 		time.Sleep(100 * time.Microsecond)
 	}
+}
+
+// C12: a handle is closed at the moment a datagram is being handed to its pending read: the
+// datagram is not lost (that read returns it, or another handle that keeps reading gets it)
+func VH_C12_close_while_datagram_in_hand() {
+	for rep := 0; rep < verifRepeat(6000); rep++ {
+		verifSched(2)
+		delete(verifBoundPC, "127.0.0.1:9313")
+		ml := NewMultiPacketListener("127.0.0.1:9313", nil)
+		h1, err1 := ml.Acquire()
+		h2, err2 := ml.Acquire()
+		verifAssert("C12.in-hand.acquire", err1 == nil && err2 == nil)
+		pc := verifBoundPC["127.0.0.1:9313"]
+		r1 := verifReadAsync(h1)
+		verifPause() // the read is pending now
+		if verifNative() {
+			// natively: the close lands a varying, very short time after the socket handed the
+			// datagram to the shared reader (that is when the reader turns to the pending read)
+			verifInject(pc, []byte{7, 7, 7}, &net.UDPAddr{IP: net.IPv4(203, 0, 113, 5), Port: 4000})
+			for spin := 0; spin < (rep%64)*8; spin++ {
+				verifSpin++
+			}
+			h1.Close()
+		} else {
+			go verifInject(pc, []byte{7, 7, 7}, &net.UDPAddr{IP: net.IPv4(203, 0, 113, 5), Port: 4000})
+			h1.Close()
+		}
+		verifSettle(func() bool { return len(r1) == 1 })
+		verifSched(0)
+		verifAssert("C12.in-hand.pending-read-returned", len(r1) == 1)
+		got := 0
+		if len(r1) == 1 {
+			p := <-r1
+			if p.err == nil {
+				verifAssert("C12.in-hand.intact", p.n == 3 && p.data[0] == 7)
+				got++
+			} else {
+				verifAssert("C12.in-hand.closed-error", p.err == net.ErrClosed)
+			}
+		}
+		// whatever the closed handle did not return goes to the handle that keeps reading
+		if got == 0 {
+			r2 := verifReadAsync(h2)
+			verifSettle(func() bool { return len(r2) == 1 })
+			if len(r2) == 1 {
+				if p := <-r2; p.err == nil && p.n == 3 {
+					got++
+				}
+			}
+			verifAssert("C12.in-hand.never-lost", got == 1)
+			h2.Close()
+			if got != 1 {
+				return // shown once is enough
+			}
+		} else {
+			h2.Close()
+		}
+		if !verifNative() {
+			verifQuiesce()
+		}
+	}
+	verifReach("C12.in-hand.done", true)
+}
+
+var verifSpin int
+
+// verifPause lets the goroutines just started get going: under gosmt until they block, natively
+// for a moment
+func verifPause() {
+	if !verifNative() {
+		verifQuiesce()
+		return
+	}
+	time.Sleep(200 * time.Microsecond)
 }
